@@ -22,6 +22,7 @@ import SympdeModel.Model.Export
 import SympdeModel.Model.Memo
 import SympdeModel.Model.Broadcast
 import SympdeModel.Model.Pullback
+import SympdeModel.Model.IntegralMap
 open Sympde
 
 def dispatch (line : String) : String :=
@@ -48,6 +49,7 @@ def dispatch (line : String) : String :=
       | "C12" => Memo.handle args
       | "C16" => Bcast.handle args
       | "C03" => PB.handle args
+      | "C04" => IM.handle args
       | _ => "bad-model"
   | some _ => "bad-line"
 
